@@ -26,22 +26,22 @@ namespace Parmcb
 /-- `find_shortest_odd_cycle_mpi` as the value rank 0 ends up with.  `scheds r` = schedule of rank `r`'s
 `parallel_reduce` (over GLOBAL indices: rank `r` of `P` owns `[sliceLo total P r, sliceHi total P r)` — the theorems assume
 exactly that of `scheds`), `t` = the reduction tree over the ranks `0 … P-1`. -/
-def signedPhaseSearchMpi (g : Graph) (pick : List Nat → Nat) (S : List Nat) (scheds : Nat → Sched) (t : RTree) :
+def signedPhaseSearchMpi (g : Graph) (pk : PickFam) (S : List Nat) (scheds : Nat → Sched) (t : RTree) :
     Cyc (List Nat) :=
   match S with
-  | [e] => singleEdgeTbb g pick e
+  | [e] => singleEdgeTbb g pk e
   | _ =>
-    if S.length < g.n then mpiPhase (hiddenIndexTbb g pick S S) scheds t
-    else mpiPhase (fun v L => searchSigned g pick S [] v true v false L) scheds t
+    if S.length < g.n then mpiPhase (hiddenIndexTbb g pk S S) scheds t
+    else mpiPhase (fun v L => searchSigned g (pk v L) S [] v true v false L) scheds t
 
 /-- `mcb_sva_signed_mpi` on rank 0: `perm` = order in which rank 0's concurrent `push_back`s filled its support vector,
 `scheds k S r`, `trees k S` = schedules and reduction tree of phase `k` -/
-def mcbSignedMpi (g : Graph) (order : List Nat) (pick : List Nat → Nat) (perm : List Nat)
+def mcbSignedMpi (g : Graph) (order : List Nat) (pick : Nat → PickFam) (perm : List Nat)
     (scheds : Nat → List Nat → Nat → Sched) (trees : Nat → List Nat → RTree) : McbResult :=
   let fi := createIndex g order
   let gi := reindex g fi
   let r := mcbSignedCore .mpi fi.dim (perm.map fun i => [i])
-    (fun k S => signedPhaseSearchMpi gi pick S (scheds k S) (trees k S))
+    (fun k S => signedPhaseSearchMpi gi (pick k) S (scheds k S) (trees k S))
   { cycles := translateBack fi.reverse r.cycles, weight := r.weight }
 
 /-! ### tree variants -/
